@@ -100,6 +100,7 @@ def run(ctx):
     nseq = ctx.pick(10, 80)
     maxn = ctx.pick(120, 300)
     seqs = common.random_sequences(ctx.rng, nseq, maxn, 2) + patterning.special_sequences(ctx.rng, ctx.pick(120, 300))[-16:]
+    seqs += [common.spell(patterning.arrange(c, ctx.rng), ctx.rng) for c in patterning.composition_grid(ctx.rng, ctx.pick(16, 120))]
     trs = []
     tid = 0
     for s in seqs:
@@ -114,6 +115,16 @@ def run(ctx):
             tid += 1
             trs.append({"tid": tid, "seq": list(var), "ev": [{"q": q, "r": common.fx(v[1])} for q, v in outs.items()]})
     patterning.judge_traces(ctx, trs, need_sqrt=max(len(s) for s in seqs))
+    # lengths next to powers of two (blob counts that are multiples of a chunk size): delta under reversal and inversion
+    near = [2 ** k + d for k in (6, 7, 8, 9, 10, 11) for d in (3, 4, 5, 6, 7)]
+    for n_ in (near if not ctx.quick else ctx.rng.sample(near, 12) + [517, 518, 1029, 1030]):
+        s_ = "".join(ctx.rng.choices("KEDRGSPQ", k=n_ - 8)) + ctx.rng.choice(["EEEEKKKK", "KKKKKKKK", "GGGGEEEE"])
+        b_ = query(lc, s_, ["get_delta"])
+        ctx.evaluations += 1
+        for name, var in (("reversal", s_[::-1]), ("inversion", invert(s_, ctx.rng))):
+            bv = query(lc, var, ["get_delta"])
+            if not same(b_["get_delta"], bv["get_delta"], False):
+                ctx.violation("%s-changes-get_delta" % name, {"seq": s_, "variant": var, "length": n_}, expected=b_["get_delta"], actual=bv["get_delta"])
     # a very long sequence (beyond what TLC evaluates here): reply-level relations only, kappa / delta / delta-max
     big = common.random_sequences(ctx.rng, 1, 2300, 2100)[0]
     b0 = query(lc, big, ["get_kappa", "get_delta", "get_deltaMax"])
